@@ -169,8 +169,10 @@ xattr_open_map_file(const char *path) {
 	}
 
 	map = calloc(1, sizeof(struct XattrMap));
-	if (map == NULL)
+	if (map == NULL) {
+		perror(path);
 		goto fail_close;
+	}
 
 	for (;;) {
 		char *line = NULL;
@@ -178,8 +180,10 @@ xattr_open_map_file(const char *path) {
 					   ISTREAM_LINE_LTRIM |
 					   ISTREAM_LINE_RTRIM |
 					   ISTREAM_LINE_SKIP_EMPTY);
-		if (ret < 0)
+		if (ret < 0) {
+			sqfs_perror(path, "reading line", ret);
 			goto fail;
+		}
 		if (ret > 0)
 			break;
 
@@ -245,6 +249,8 @@ xattr_apply_map_file(char *path, void *map, sqfs_xattr_writer_t *xwr) {
 				puts("\n");
 				ret = sqfs_xattr_writer_add(xwr, entry);
 				if (ret < 0) {
+					sqfs_perror(path, "storing xattr "
+						    "key-value pair", ret);
 					return ret;
 				}
 			}
